@@ -310,7 +310,7 @@ class Effects:
                     return deep_except_tuple(v)
                 return deep_except_tuple(v)
             if leaf in SHALLOW_COPIES and (isinstance(f, ast.Name) or leaf == "copy"):
-                src_e = recv if leaf == "copy" else (c.args[0] if c.args else None)
+                src_e = recv if (leaf == "copy" and isinstance(f, ast.Attribute)) else (c.args[0] if c.args else None)  # x.copy() / copy(x)
                 out = shallow(ev(src_e, st))
                 for k in c.keywords:
                     out = out | (shallow(ev(k.value, st)) if k.arg is None else wrap(ev(k.value, st)))
